@@ -96,6 +96,7 @@ Proof.
   pose proof (pow2_pos k Hk) as Hpk. pose proof (pow2_pos j ltac:(lia)) as Hpj.
   assert (Hjk : 2 ^ j <= 2 ^ k) by (apply pow2_le; lia).
   assert (Hm0 : 0 < m) by lia.
+  clearbody x j a m.
   set (r := (w' * a) mod m) in *.
   assert (Key : w' * 2 ^ j = (r * x) mod m).
   { transitivity ((w' * 2 ^ j) mod m).
